@@ -14,6 +14,8 @@ var (
 	ErrInvalidValue      = errors.New("invalid value")
 	ErrNotANumber        = errors.New("result of operation is not a number")
 	ErrUndefinedVariable = errors.New("undefined variable")
+
+	errExpressionTooDeep = errors.New("expression is nested too deeply")
 )
 
 type InvalidTypeError struct {
